@@ -21,6 +21,9 @@ pub struct Viol {
     pub site: String,
     pub what: String,
     pub detail: Value,
+    /// the violation IS an observation of nondeterminism (e.g. "two fits of the same input in this
+    /// execution differ"): it need not reproduce identically on replay to be reported
+    pub nondet: bool,
 }
 
 #[derive(Default)]
@@ -135,7 +138,15 @@ pub fn violation(site: impl Into<String>, what: impl Into<String>) {
 }
 
 pub fn violation_d(site: impl Into<String>, what: impl Into<String>, detail: Value) {
-    let v = Viol { site: site.into(), what: what.into(), detail };
+    let v = Viol { site: site.into(), what: what.into(), detail, nondet: false };
+    REC.with(|r| r.borrow_mut().ex.viols.push(v))
+}
+
+/// A violation of a determinism / reproducibility clause, observed inside one execution (the same
+/// call made twice gave different results). The observation itself is the evidence; the driver
+/// reports it even if a replay happens to draw equal results.
+pub fn violation_nondet(site: impl Into<String>, what: impl Into<String>) {
+    let v = Viol { site: site.into(), what: what.into(), detail: Value::Null, nondet: true };
     REC.with(|r| r.borrow_mut().ex.viols.push(v))
 }
 
